@@ -9,6 +9,6 @@ if ! git apply --check "$patch" 2>/dev/null; then
 else
   git apply "$patch"
 fi
-cd /verif && ./bin/vcheck check "$prop" "$@"; rc=$?
+cd /verif && VERIF_EVIDENCE_DIR=/verif/out/evidence-trial ./bin/vcheck check "$prop" "$@"; rc=$?
 git -C /repo checkout -- . ; git -C /repo clean -fdq -- . >/dev/null 2>&1
 echo "exit=$rc"
